@@ -725,6 +725,10 @@ fn es<E: std::fmt::Display>(e: E) -> String {
 const REG: ScSpec = ScSpec { xk: XKind::Cont, yk: YKind::Reg, nmin: 6, nmax: 20, pmin: 1, pmax: 4, pow2: false };
 const CLS: ScSpec = ScSpec { xk: XKind::Cont, yk: YKind::Cls { k: 0, plain: false }, nmin: 8, nmax: 20, pmin: 1, pmax: 4, pow2: false };
 const CLS2: ScSpec = ScSpec { xk: XKind::Cont, yk: YKind::Cls { k: 2, plain: false }, nmin: 8, nmax: 18, pmin: 1, pmax: 3, pow2: false };
+// a few hundred rows (sorting / selection code switches strategy with the length of its input); half of the
+// scenarios are lattice-valued, i.e. every feature column is full of ties
+const REG_BIG: ScSpec = ScSpec { xk: XKind::Cont, yk: YKind::Reg, nmin: 260, nmax: 420, pmin: 1, pmax: 3, pow2: false };
+const CLS_BIG: ScSpec = ScSpec { xk: XKind::Cont, yk: YKind::Cls { k: 0, plain: false }, nmin: 260, nmax: 420, pmin: 1, pmax: 3, pow2: false };
 const UNSUP: ScSpec = ScSpec { xk: XKind::Cont, yk: YKind::None, nmin: 6, nmax: 20, pmin: 1, pmax: 3, pow2: false };
 
 fn linear_t<T: Num>(c: &mut Case, sc: &Scen) {
@@ -1659,6 +1663,12 @@ fam!(tree_classifier, CLS, tree_cls_t);
 fam!(tree_regressor, REG, tree_reg_t);
 fam!(forest_classifier, CLS, forest_cls_t);
 fam!(forest_regressor, REG, forest_reg_t);
+fam!(knn_classifier_big, CLS_BIG, knn_cls_t);
+fam!(knn_regressor_big, REG_BIG, knn_reg_t);
+fam!(tree_classifier_big, CLS_BIG, tree_cls_t);
+fam!(tree_regressor_big, REG_BIG, tree_reg_t);
+fam!(forest_classifier_big, CLS_BIG, forest_cls_t);
+fam!(forest_regressor_big, REG_BIG, forest_reg_t);
 fam!(nb_gaussian, NB_GAUSS, nb_gauss_t);
 fam!(nb_bernoulli, NB_BIN, nb_bern_t);
 fam!(nb_multinomial, NB_CNT, nb_multi_t);
@@ -1701,6 +1711,12 @@ fn main() {
             Family::new("tree_regressor", 600, 30000, tree_regressor),
             Family::new("forest_classifier", 600, 30000, forest_classifier),
             Family::new("forest_regressor", 600, 30000, forest_regressor),
+            Family::new("knn_classifier_big", 30, 1200, knn_classifier_big),
+            Family::new("knn_regressor_big", 30, 1200, knn_regressor_big),
+            Family::new("tree_classifier_big", 40, 1600, tree_classifier_big),
+            Family::new("tree_regressor_big", 40, 1600, tree_regressor_big),
+            Family::new("forest_classifier_big", 30, 1200, forest_classifier_big),
+            Family::new("forest_regressor_big", 30, 1200, forest_regressor_big),
             Family::new("nb_gaussian", 480, 24000, nb_gaussian),
             Family::new("nb_bernoulli", 600, 30000, nb_bernoulli),
             Family::new("nb_multinomial", 600, 30000, nb_multinomial),
